@@ -1,77 +1,95 @@
 ----------------------------- MODULE StmtPolicy_gen -----------------------------
 (* Case generation for C21 / C22 (decision table of StmtPolicy part 1).                          *)
-(* One TLC state per descriptor; the invariant Emit prints the descriptor with the decision the   *)
-(* specification requires; the other invariants check the table's consistency on every           *)
-(* descriptor visited.                                                                           *)
-(*   Family = "C21": statements of read-only users (all kinds x all decorations x all channels),  *)
-(*                   plus controls (the same statements of users that may write).                *)
+(* One TLC state per descriptor (all successors of the single initial state); the invariant Emit  *)
+(* prints the descriptor with the decision the specification requires; the other invariants       *)
+(* check the table's consistency on every descriptor visited.                                    *)
+(*   Family = "C21": statements of read-only users: every modifying kind x every decoration x     *)
+(*                   every channel; plus lightly decorated controls (users that may write, kinds   *)
+(*                   that do not modify).                                                         *)
 (*   Family = "C22": reads with every combination of lock clause / master hint / read_only probe  *)
-(*                   under every lexical decoration for the rw-split user, and a thinner set       *)
-(*                   (at most MaxDeco decorations) under every user / switch / transaction state.  *)
-(*   Tier = "thorough": the whole set.  Tier = "quick": every descriptor with at most two          *)
+(*                   under every lexical decoration for the rw-split user, and with at most one    *)
+(*                   lexical decoration under every user / switch / transaction state / channel.   *)
+(*   Tier = "thorough": the whole set.  Tier = "quick": every descriptor with at most LightMax     *)
 (*   non-default decoration or context fields, plus a pseudo-random sample of the rest selected    *)
 (*   by Seed (Keep out of 10007).                                                                *)
 EXTENDS StmtPolicy, TLC, Json, SequencesExt
 
-CONSTANTS Family, Tier, Seed, Keep
+CONSTANTS Family, Tier, Seed, Keep, LightMax
 
 VARIABLE c
 vars == <<c>>
 
+NoCase == [kind |-> "nocase"]
+IsCase == c.kind # "nocase"
+
+Scramble(n) == (((n % 100003) * 1009 + (Seed % 10007) * 31) % 10007) < Keep
+CtxNFeat(d) == B2N(d.ro # (Family = "C21")) + B2N(d.split # (Family = "C22")) + B2N(~d.csl)
+Light(d)    == PolNFeat(d) + CtxNFeat(d) <= LightMax
+Chosen(d, n) == Tier = "thorough" \/ Light(d) \/ Scramble(n)
+
 (* ---------------- C21 ---------------- *)
-Leads21  == Leads
 Trails21 == {"none", "semicolon", "comment", "trace"}
 Intx21   == {"no", "begin"}
+Deco21 == SetToSeq([lead : Leads, kwsep : Kwseps, cs : Cases, trail : Trails21])
+Ctx21  == SetToSeq([chan : Chans, intx : Intx21, ro : BOOLEAN, split : BOOLEAN])
+Kind21 == SetToSeq(Kinds)
 
-Mk21(l, x) == [kind |-> l.kind, lead |-> l.lead, kwsep |-> l.kwsep, cs |-> l.cs, trail |-> l.trail,
-               lock |-> "none", lockopt |-> "none", hint |-> "none", probe |-> "none",
-               chan |-> x.chan, intx |-> x.intx, ro |-> x.ro, split |-> x.split, csl |-> TRUE]
+Mk21(k, l, x) == [kind |-> k, lead |-> l.lead, kwsep |-> l.kwsep, cs |-> l.cs, trail |-> l.trail,
+                  lock |-> "none", lockopt |-> "none", hint |-> "none", probe |-> "none",
+                  chan |-> x.chan, intx |-> x.intx, ro |-> x.ro, split |-> x.split, csl |-> TRUE]
 
-Lex21 == [kind : Kinds, lead : Leads21, kwsep : Kwseps, cs : Cases, trail : Trails21]
-Ctx21 == [chan : Chans, intx : Intx21, ro : BOOLEAN, split : BOOLEAN]
+In21(d) == /\ PolWF(d)
+           /\ \/ d.ro /\ Modifies(d)          \* the property's subject: full product
+              \/ PolNFeat(d) <= 1             \* controls
 
-(* full product for read-only users and modifying statements; controls only lightly decorated *)
-Set21 == { d \in { Mk21(l, x) : l \in Lex21, x \in Ctx21 } :
-             /\ PolWF(d)
-             /\ \/ d.ro /\ Modifies(d)
-                \/ PolNFeat(d) <= 1 }
+Next21 == \E i \in DOMAIN Kind21, j \in DOMAIN Deco21, k \in DOMAIN Ctx21 :
+            LET d == Mk21(Kind21[i], Deco21[j], Ctx21[k])
+            IN /\ In21(d)
+               /\ Chosen(d, (i * Len(Deco21) + j) * Len(Ctx21) + k)
+               /\ c' = d
 
 (* ---------------- C22 ---------------- *)
 Leads22  == {"none", "space", "newline", "comment", "dash", "version_wrap"}
-Trails22 == Trails
 Kinds22  == ReadKinds \cup {"insert", "update", "delete", "replace"}
 Chans22  == {"query", "multi_first", "multi_last", "prepared"}
 
-Lex22 == { l \in [kind : Kinds22, lead : Leads22, cs : Cases, trail : Trails22,
-                  lock : Locks, lockopt : LockOpts, hint : Hints, probe : Probes] :
-              /\ l.kind \in WriteKinds => l.lead \in {"none", "comment"} /\ l.cs = "lower" /\ l.trail \in {"none", "trace"} }
-Ctx22 == [chan : Chans22, intx : Intxs, ro : BOOLEAN, split : BOOLEAN, csl : BOOLEAN]
+Reason22 == SetToSeq({ r \in [kind : Kinds22, lock : Locks, lockopt : LockOpts, hint : Hints, probe : Probes] :
+                         PolWF([kind |-> r.kind, lead |-> "none", kwsep |-> "space", cs |-> "lower", trail |-> "none",
+                                lock |-> r.lock, lockopt |-> r.lockopt, hint |-> r.hint, probe |-> r.probe,
+                                chan |-> "query", intx |-> "no", ro |-> FALSE, split |-> TRUE, csl |-> TRUE]) })
+Deco22 == SetToSeq([lead : Leads22, cs : Cases, trail : Trails])
+Ctx22  == SetToSeq([chan : Chans22, intx : Intxs, ro : BOOLEAN, split : BOOLEAN, csl : BOOLEAN])
 
-Mk22(l, x) == [kind |-> l.kind, lead |-> l.lead, kwsep |-> "space", cs |-> l.cs, trail |-> l.trail,
-               lock |-> l.lock, lockopt |-> l.lockopt, hint |-> l.hint, probe |-> l.probe,
-               chan |-> x.chan, intx |-> x.intx, ro |-> x.ro, split |-> x.split, csl |-> x.csl]
+Mk22(r, l, x) == [kind |-> r.kind, lead |-> l.lead, kwsep |-> "space", cs |-> l.cs, trail |-> l.trail,
+                  lock |-> r.lock, lockopt |-> r.lockopt, hint |-> r.hint, probe |-> r.probe,
+                  chan |-> x.chan, intx |-> x.intx, ro |-> x.ro, split |-> x.split, csl |-> x.csl]
 
 MainUser(d) == ~d.ro /\ d.split /\ d.csl /\ d.intx = "no"
-LexNFeat(d) == Cardinality({f \in {"lead", "cs", "trail"} : d[f] # PolDefault[f]})
+LexNFeat(d) == B2N(d.lead # "none") + B2N(d.cs # "lower") + B2N(d.trail # "none")
 
-Set22 == { d \in { Mk22(l, x) : l \in Lex22, x \in Ctx22 } :
-             /\ PolWF(d)
-             /\ ~d.csl => d.lock # "none"            \* the switch only matters for locking reads
-             /\ \/ MainUser(d)
-                \/ LexNFeat(d) <= 1 }
+In22(d) == /\ PolWF(d)
+           /\ ~d.csl => d.lock # "none"            \* the switch only matters for locking reads
+           /\ d.kind \in WriteKinds => LexNFeat(d) <= 1 /\ ~d.ro     \* rejection is C21's subject
+           /\ \/ MainUser(d)                       \* full lexical product
+              \/ LexNFeat(d) <= 1                  \* every context, lightly decorated
 
-(* ---------------- tiering ---------------- *)
-FullSet == IF Family = "C21" THEN Set21 ELSE Set22
+DecoFew22 == SelectSeq(Deco22, LAMBDA l : B2N(l.lead # "none") + B2N(l.cs # "lower") + B2N(l.trail # "none") <= 1)
+MainCtx22 == SelectSeq(Ctx22, LAMBDA x : ~x.ro /\ x.split /\ x.csl /\ x.intx = "no")
 
-CtxNFeat(d) == B2N(d.ro # (Family = "C21")) + B2N(d.split # (Family = "C22")) + B2N(~d.csl)
-Scramble(i) == ((i * 1009 + (Seed % 10007) * 31) % 10007) < Keep
+Pick22(rs, ds, xs, off) ==
+    \E i \in DOMAIN rs, j \in DOMAIN ds, k \in DOMAIN xs :
+       LET d == Mk22(rs[i], ds[j], xs[k])
+       IN /\ In22(d)
+          /\ Chosen(d, off + (i * Len(ds) + j) * Len(xs) + k)
+          /\ c' = d
 
-CaseSet == IF Tier = "thorough" THEN FullSet
-           ELSE LET sq == SetToSeq(FullSet)
-                IN { sq[i] : i \in { j \in 1..Len(sq) : PolNFeat(sq[j]) + CtxNFeat(sq[j]) <= 2 \/ Scramble(j) } }
+Next22 == \/ Pick22(Reason22, Deco22, MainCtx22, 0)        \* full lexical product, rw-split user
+          \/ Pick22(Reason22, DecoFew22, Ctx22, 7)          \* every context, lightly decorated
 
-Init == c \in CaseSet
-Next == UNCHANGED c
+(* ---------------- behaviour ---------------- *)
+Init == c = NoCase
+Next == /\ ~IsCase
+        /\ IF Family = "C21" THEN Next21 ELSE Next22
 Spec == Init /\ [][Next]_vars
 
 Out(d) == [p |-> Family, kind |-> d.kind, lead |-> d.lead, kwsep |-> d.kwsep, cs |-> d.cs, trail |-> d.trail,
@@ -79,13 +97,18 @@ Out(d) == [p |-> Family, kind |-> d.kind, lead |-> d.lead, kwsep |-> d.kwsep, cs
            chan |-> d.chan, intx |-> d.intx, ro |-> d.ro, split |-> d.split, csl |-> d.csl,
            expect |-> Decision(d)]
 
-Emit == PrintT(<<"CASE", ToJson(Out(c))>>)
+Emit == IsCase => PrintT(<<"CASE", ToJson(Out(c))>>)
 
-WellFormed         == c \in PolDesc /\ PolWF(c)
-Partition          == PolPartition(c)
-RejectNotReplica   == PolRejectNeverOnReplica(c)
-ReplicaOnlyReads   == PolReplicaOnlyReads(c)
-Total              == PolTotal(c)
-DecorationsDoNotMatter == PolDecorationIrrelevant(c)
-TxPinsMaster       == PolTxPinsMaster(c)
+WellFormed         == IsCase => c \in PolDesc /\ PolWF(c)
+Partition          == IsCase => PolPartition(c)
+RejectNotReplica   == IsCase => PolRejectNeverOnReplica(c)
+ReplicaOnlyReads   == IsCase => PolReplicaOnlyReads(c)
+Total              == IsCase => PolTotal(c)
+DecorationsDoNotMatter == IsCase => PolDecorationIrrelevant(c)
+TxPinsMaster       == IsCase => PolTxPinsMaster(c)
+NoSplitPinsMaster  == IsCase => PolNoSplitPinsMaster(c)
+WritesPinMaster    == IsCase => PolWritesPinMaster(c)
+GroundsIndependent == IsCase => PolGroundsIndependent(c)
+UncheckedLockIrrelevant == IsCase => PolUncheckedLockIrrelevant(c)
+RejectIgnoresContext == IsCase => MustReject(c) = MustReject([c EXCEPT !.split = FALSE, !.intx = "no", !.csl = TRUE])
 =================================================================================
